@@ -13,6 +13,7 @@ import (
 	"encoding/hex"
 	"go/types"
 	"sort"
+	"strconv"
 	"strings"
 
 	"golang.org/x/tools/go/ssa"
@@ -240,6 +241,29 @@ func mkBin(op string, a, b *Term) *Term {
 		}
 		flat(a)
 		flat(b)
+		if op == "+" {
+			// integer constants of a sum are added up (i = -1; i++ is 0)
+			var sum int64
+			nk := 0
+			rest := ops[:0:0]
+			for _, x := range ops {
+				if k, ok := x.IntConst(); ok && !strings.Contains(x.Aux, ":") {
+					sum += k
+					nk++
+				} else {
+					rest = append(rest, x)
+				}
+			}
+			if nk >= 2 || (nk == 1 && sum == 0 && len(rest) > 0) {
+				if sum != 0 || len(rest) == 0 {
+					rest = append(rest, &Term{Op: "const", Aux: strconv.FormatInt(sum, 10)})
+				}
+				ops = rest
+				if len(ops) == 1 {
+					return ops[0]
+				}
+			}
+		}
 		sort.SliceStable(ops, func(i, j int) bool { return ops[i].Key() < ops[j].Key() })
 		return &Term{Op: "bin", Aux: op, Args: ops}
 	case "==", "!=":
